@@ -52,7 +52,7 @@ def build(ni, qi, qual, ali, ws):
         ref = '"S c".' + name_txt
         parent = 'S c'
     alias = None
-    sp = ' ' if ws == 0 else ('  ' if ws == 1 else '\n')
+    sp = ' ' if ws == 0 else ('\n' if ws == 1 else '  ')
     if ali == 1:
         ref = ref + sp + 'AS' + sp + 'al'
         alias = 'al'
